@@ -235,4 +235,150 @@ theorem genResolve_qual (G : Dkg.Grp) (st : GenSt) (I : Inbox) (st' : GenSt) (I'
           obtain ⟨rfl, _⟩ := h
           exact ⟨rfl, rfl, rfl⟩
 
+/-! ### after the repair of step 1(d): unanswered complaints disqualify -/
+
+/-- reading from sender `j` leaves the other broadcast buffers and the private buffers alone -/
+def FrameB (j : Nat) (I I' : Inbox) : Prop :=
+  (∀ k, k ≠ j → I'.b.getD k [] = I.b.getD k []) ∧ I'.p = I.p
+
+theorem FrameB.refl (j : Nat) (I : Inbox) : FrameB j I I := ⟨fun _ _ => rfl, rfl⟩
+
+theorem FrameB.trans {j : Nat} {I I1 I2 : Inbox} (h1 : FrameB j I I1) (h2 : FrameB j I1 I2) :
+    FrameB j I I2 :=
+  ⟨fun k hk => (h2.1 k hk).trans (h1.1 k hk), h2.2.trans h1.2⟩
+
+theorem popB_frame (I : Inbox) (tag : Tag) (j : Nat) : FrameB j I (I.popB tag j).2 := by
+  unfold Inbox.popB
+  split
+  · exact FrameB.refl j I
+  · refine ⟨fun k hk => ?_, rfl⟩
+    simp [List.getD_eq_getElem?_getD, List.getElem?_set, Ne.symm hk]
+
+theorem popB_frame' {I : Inbox} {tag : Tag} {j : Nat} {o : Option Int} {I1 : Inbox}
+    (h : I.popB tag j = (o, I1)) : FrameB j I I1 := by
+  have := popB_frame I tag j
+  rw [h] at this
+  exact this
+
+/-- one unfolding of `genReadAnswers` in lock step with `answeredOf` -/
+theorem genReadAnswers_step2 (G : Dkg.Grp) (st : GenSt) (j : Nat) (f : Nat) (I : Inbox) (s sp : List Int)
+    (cm : List Nat) (R : Inbox × List Int × List Int × List Nat) (acc : List Nat)
+    (h : genReadAnswers G st j (f + 1) I s sp cm = .ok R) :
+    (∃ I1 cm1, R = (I1, s, sp, cm1) ∧ (∀ k ∈ cm, k ∈ cm1) ∧ FrameB j I I1 ∧
+      (answeredOf st.n j (f + 1) I acc = acc ∨
+        (j ∈ cm1 ∧ ∃ who, answeredOf st.n j (f + 1) I acc = acc ++ [who]))) ∨
+    (∃ I3 cm1 who, (∀ k ∈ cm, k ∈ cm1) ∧ FrameB j I I3 ∧
+      genReadAnswers G st j f I3 s sp cm1 = .ok R ∧
+      answeredOf st.n j (f + 1) I acc = answeredOf st.n j f I3 (acc ++ [who]) ∧
+      (who = st.i → j ∈ cm1)) ∨
+    (∃ I3 cm1 foo bar, (∀ k ∈ cm, k ∈ cm1) ∧ FrameB j I I3 ∧ Eq4F G st.i (getRow st.C j) foo bar ∧
+      genReadAnswers G st j f I3 (s.set j foo) (sp.set j bar) cm1 = .ok R ∧
+      answeredOf st.n j (f + 1) I acc = answeredOf st.n j f I3 (acc ++ [st.i])) := by
+  unfold genReadAnswers at h
+  split at h
+  · rename_i I1 h1
+    left
+    refine ⟨_, _, (Except.ok.inj h).symm, fun k hk => List.mem_append_left _ hk, popB_frame' h1, Or.inl ?_⟩
+    simp only [answeredOf, h1]
+  · rename_i v I1 h1
+    simp only at h
+    split at h
+    · rename_i hge
+      left
+      refine ⟨_, _, (Except.ok.inj h).symm, fun k hk => hk, popB_frame' h1, Or.inl ?_⟩
+      simp only [answeredOf, h1, hge, if_true]
+    · rename_i hge
+      split at h
+      · rename_i I2 h2
+        left
+        refine ⟨_, _, (Except.ok.inj h).symm, fun k hk => List.mem_append_left _ hk,
+          (popB_frame' h1).trans (popB_frame' h2), Or.inr ⟨by simp, getUi v, ?_⟩⟩
+        simp only [answeredOf, h1, hge, if_false, h2]
+      · rename_i foo0 I2 h2
+        split at h
+        · rename_i I3 h3
+          left
+          refine ⟨_, _, (Except.ok.inj h).symm, fun k hk => List.mem_append_left _ ?_,
+            ((popB_frame' h1).trans (popB_frame' h2)).trans (popB_frame' h3),
+            Or.inr ⟨by simp, getUi v, ?_⟩⟩
+          · split
+            · exact List.mem_append_left _ hk
+            · exact hk
+          · simp only [answeredOf, h1, hge, if_false, h2, h3]
+        · rename_i bar0 I3 h3
+          have hfr : FrameB j I I3 :=
+            ((popB_frame' h1).trans (popB_frame' h2)).trans (popB_frame' h3)
+          have hao : answeredOf st.n j (f + 1) I acc = answeredOf st.n j f I3 (acc ++ [getUi v]) := by
+            simp only [answeredOf, h1, hge, if_false, h2, h3]
+          generalize (if absGe foo0 G.q = true then (true, (0:Int)) else (false, foo0)) = pf at h
+          generalize (if absGe bar0 G.q = true then (true, (0:Int)) else (false, bar0)) = pb at h
+          obtain ⟨c1, foo⟩ := pf
+          obtain ⟨c2, bar⟩ := pb
+          simp only at h
+          generalize hcmB : (if c2 = true then (if c1 = true then cm ++ [j] else cm) ++ [j]
+            else if c1 = true then cm ++ [j] else cm) = cmB at h
+          have hsub : ∀ k ∈ cm, k ∈ cmB := by
+            intro k hk
+            subst hcmB
+            split <;> split <;> simp [hk]
+          simp only [bind, Except.bind] at h
+          cases hp : pedF G foo bar with
+          | error e => rw [hp] at h; cases h
+          | ok l =>
+            rw [hp] at h
+            simp only at h
+            cases hc : commitProd G.p (getUi v + 1) (getRow st.C j) with
+            | error e => rw [hc] at h; cases h
+            | ok r =>
+              rw [hc] at h
+              simp only at h
+              split at h
+              · right; left
+                exact ⟨_, _, getUi v, fun k hk => List.mem_append_left _ (hsub k hk), hfr, h, hao,
+                  fun _ => by simp⟩
+              · rename_i hlr
+                split at h
+                · rename_i hw
+                  right; right
+                  refine ⟨_, _, foo, bar, hsub, hfr, ⟨l, r, hp, hw ▸ hc, ?_⟩, h, hw ▸ hao⟩
+                  simpa using hlr
+                · rename_i hw
+                  right; left
+                  exact ⟨_, _, getUi v, hsub, hfr, h, hao, fun e => absurd e hw⟩
+
+/-- if dealer `j` answered the complaint of party `i` (the reader) and its answers do not disqualify
+    it, the share the reader holds from `j` afterwards satisfies equation (4) -/
+theorem genReadAnswers_answered (G : Dkg.Grp) (st : GenSt) (j : Nat) (f : Nat) (I : Inbox) (s sp : List Int)
+    (cm : List Nat) (I' : Inbox) (s' sp' : List Int) (cm' : List Nat)
+    (hlen : s.length = sp.length) (hjlen : j < s.length)
+    (h : genReadAnswers G st j f I s sp cm = .ok (I', s', sp', cm')) (hj : j ∉ cm')
+    (hans : st.i ∈ answeredOf st.n j f I []) :
+    Eq4F G st.i (getRow st.C j) (getI s' j) (getI sp' j) := by
+  sorry
+
+/-- a dealer that stays out of the complaint list of step 1(d) has answered every complaint recorded
+    against it (one step of `genResolveGo`) -/
+theorem unanswered_nil_of_not_mem (st : GenSt) (j : Nat) (I : Inbox) (cm : List Nat)
+    (hj : j ∉ cm ++ unanswered st j I) :
+    ∀ c ∈ st.complainers.getD j [], c ∈ answeredOf st.n j (st.n + 1) I [] := by
+  sorry
+
+/-- the reads of sender `j` only consume the buffer of `j` -/
+theorem genReadAnswers_frame (G : Dkg.Grp) (st : GenSt) (j : Nat) (f : Nat) (I : Inbox) (s sp : List Int)
+    (cm : List Nat) (I' : Inbox) (s' sp' : List Int) (cm' : List Nat)
+    (h : genReadAnswers G st j f I s sp cm = .ok (I', s', sp', cm')) (k : Nat) (hk : k ≠ j) :
+    I'.b.getD k [] = I.b.getD k [] ∧ I'.p = I.p := by
+  sorry
+
+/-- **step 1(d), repaired code**: for every dealer `j ≠ i` in QUAL that party `i` complained about in
+    step 1(b) (`i ∈ complainers[j]`), the share `i` holds from `j` after step 1(d) satisfies (4) -/
+theorem genResolveGo_share_valid (G : Dkg.Grp) (st : GenSt) (idx : List Nat) (hnd : idx.Nodup)
+    (I : Inbox) (s sp : List Int) (cm : List Nat) (I' : Inbox) (s' sp' : List Int) (cm' : List Nat)
+    (hlen : s.length = sp.length)
+    (h : genResolveGo G st idx I s sp cm = .ok (I', s', sp', cm'))
+    (j : Nat) (hjidx : j ∈ idx) (hji : j ≠ st.i) (hjlen : j < s.length) (hj : j ∉ cm')
+    (hcompl : st.i ∈ st.complainers.getD j []) :
+    Eq4F G st.i (getRow st.C j) (getI s' j) (getI sp' j) := by
+  sorry
+
 end Tmcg.DkgP
